@@ -64,6 +64,7 @@ struct ConcPlan
     std::vector<uint32_t> fine; // basic-block preemption counts (ascending)
     std::vector<uint32_t> susp; // ordinals of "locked code running unlocked" executions to preempt at
     uint32_t              relock_stall{0};
+    std::vector<uint32_t> shared; // ordinals of basic blocks executed under a shared (reader) hold to preempt at
     std::string           note; // e.g. the method pair of a matrix plan
 
     js::Value to_json() const
@@ -139,6 +140,13 @@ struct ConcPlan
         }
         if (relock_stall)
             s.set("relock_stall", relock_stall);
+        if (!shared.empty())
+        {
+            auto f = js::Value::array();
+            for (auto x : shared)
+                f.push(js::Value::integer(x));
+            s.set("shared", std::move(f));
+        }
         v.set("sched", std::move(s));
         return v;
     }
@@ -191,6 +199,7 @@ struct ConcPlan
         change_points.clear();
         fine.clear();
         susp.clear();
+        shared.clear();
         relock_stall = 0;
         stall_client = -1;
         if (auto* s = v.get("sched"))
@@ -219,6 +228,9 @@ struct ConcPlan
                 for (auto& x : f->a)
                     susp.push_back((uint32_t)x.i);
             relock_stall = (uint32_t)s->geti("relock_stall");
+            if (auto* f = s->get("shared"))
+                for (auto& x : f->a)
+                    shared.push_back((uint32_t)x.i);
         }
         normalize();
         return true;
@@ -311,6 +323,8 @@ struct ConcPlan
         fine.erase(std::unique(fine.begin(), fine.end()), fine.end());
         std::sort(susp.begin(), susp.end());
         susp.erase(std::unique(susp.begin(), susp.end()), susp.end());
+        std::sort(shared.begin(), shared.end());
+        shared.erase(std::unique(shared.begin(), shared.end()), shared.end());
     }
 };
 
@@ -620,6 +634,8 @@ struct ConcRun
         spec.susp          = plan.susp.data();
         spec.nsusp         = plan.susp.size();
         spec.relock_stall  = plan.relock_stall;
+        spec.shared        = plan.shared.data();
+        spec.nshared       = plan.shared.size();
         spec.obj_lo        = box->obj_addr();
         spec.obj_hi        = (const char*)box->obj_addr() + box->obj_size();
         sched::begin_run(spec);
@@ -674,6 +690,8 @@ struct ConcRun
         out.st.bump("probe.locked_code_running_unlocked", sched::susp_seen());
         out.st.bump("fault.stall_at_second_lock_acquisition", sched::relock_fired());
         out.st.bump("probe.busy_wait_yields", sched::spin_yields());
+        out.st.bump("fault.preempt_under_shared_hold", sched::shared_fired());
+        out.st.bump("probe.basic_blocks_under_shared_hold", sched::shared_seen());
 
         std::map<std::tuple<int, int, int>, size_t> where; // (client, epoch, idx) -> hist index
         for (size_t e = 0; e < plan.epochs.size(); ++e)
@@ -1134,7 +1152,11 @@ struct CGen
         else
             f.push_back(1);
         if (tr.iter_forms)
+        {
             f.push_back(3);
+            if (k == OpKind::find_range)
+                f.push_back(4); // iterator pair without the distance hint
+        }
         return r.pick(f);
     }
     Op op(OpKind k)
@@ -1346,6 +1368,14 @@ struct CGen
             static const uint32_t rs[] = {0, 6, 14, 30, 60};
             p.relock_stall             = rs[r.below(5)];
         }
+        // ---- preemptions while the container's lock is held shared (reader/writer locks only: other
+        //      readers can be inside the same critical section then)
+        if (r.chance(3, 4))
+        {
+            p.shared.push_back((uint32_t)r.below(12));
+            if (r.chance(1, 2))
+                p.shared.push_back((uint32_t)r.below(120));
+        }
         // ---- preemptions where code that calibration saw only under the lock runs without it
         //      (never happens on a tree that locks consistently, so it costs nothing there)
         if (r.chance(3, 4))
@@ -1495,7 +1525,7 @@ ConcPlan pair_plan(uint64_t idx, uint64_t seed)
             case OpKind::find_fill:
                 o.peek  = peek;
                 o.items = {Item{kp, 0, 0}, Item{2, 0, 0}, Item{1, 0, 0}};
-                o.form  = tr.iter_forms ? 3 : 0;
+                o.form  = tr.iter_forms ? ((k == OpKind::find_range && av == 1) ? 4 : 3) : 0;
                 break;
             case OpKind::update_ttl:
                 o.ttl_ms = who == 0 ? 20 : 30;
@@ -1713,6 +1743,13 @@ size_t conc_shrink_json(js::Value& pj, const std::function<bool(const js::Value&
         {
             ConcPlan c     = plan;
             c.relock_stall = 0;
+            if (try_plan(c))
+                progress = true;
+        }
+        if (!plan.shared.empty())
+        {
+            ConcPlan c = plan;
+            c.shared.clear();
             if (try_plan(c))
                 progress = true;
         }
